@@ -127,7 +127,8 @@ Definition m_reverse (v : value) : tres :=
       let r := fold_left (fun acc c => acc * 10 + (c - 48)) (rev digs) 0 in
       let r := if i <? 0 then - r else r in
       if i =? 0 then TOk [] (VInt 0)
-      else if (r <? -9223372036854775808) || (9223372036854775807 <? r) then TCrash else TOk [] (VInt r)
+      else if (r <? -9223372036854775808) || (9223372036854775807 <? r) then TOk [] (VInt i)   (* diagnostic, value unchanged *)
+      else TOk [] (VInt r)
   | VData d => TOk [] (VData (rev d))
   | VString s => TOk [] (VString (rev s))
   | VFun f a w => TOk [] (VString (rev w))
@@ -154,7 +155,7 @@ Definition m_bech32dec (v : value) : tres :=
   | VString s =>
       match value_bech32_dec_full s with
       | B32Failed => TOk [] v
-      | B32UB => TCrash
+      | B32UB => TOk [] v                             (* no data part: diagnostic, value unchanged *)
       | B32Data _ enc hrp _ data => TOk (BECH32_PRE (enc =? 2) hrp) (VData data)
       end
   | _ => TOk [] v
@@ -171,7 +172,7 @@ Definition m_addr_to_spk (v : value) : tres :=
            | _ => stale_data v
            end in
   match d with
-  | [] => TCrash                                   (* data.erase(data.begin()) on an empty vector *)
+  | [] => TOk [] (match v with VString _ => VData [] | _ => v end)     (* diagnostic; a failed decode leaves an empty data value *)
   | _ :: h => TOk [] (VData (p2pkh_script h))
   end.
 
@@ -264,7 +265,7 @@ Definition do_exec (f : str) (v : value) : option (parse_res value) :=
   match do_exec_full f v with
   | Some (TOk _ r) => Some (POk r)
   | Some TExit1 => Some PExit1
-  | Some TExn => Some PAbort
+  | Some TExn => Some PExit1             (* caught in the Value constructor: diagnostic, exit(1) *)
   | Some TCrash => Some PAbort
   | Some TUnmodelled => Some PAbort      (* marker only: the generators never feed unmodelled transforms *)
   | None => None
